@@ -57,6 +57,7 @@ type WorkerOut struct {
 	Distinct  int               `json:"codec_distinct"`
 	Violating []RunResult       `json:"violating,omitempty"`
 	Foreign   map[string]int    `json:"foreign,omitempty"`
+	ForeignSamples []string     `json:"foreign_samples,omitempty"`
 	RunHashes map[string]uint64 `json:"run_hashes,omitempty"`
 	Samples   []string          `json:"samples,omitempty"`
 	EpochEvs  int               `json:"epoch_events"`
@@ -94,6 +95,7 @@ func drawConfig(r *rand.Rand, ps *PropSpec) world.Config {
 	}
 	cfg.NameChange = r.Intn(2) == 0
 	cfg.FIFO = r.Intn(2) == 0
+	cfg.PreHistory = r.Intn(4) == 0
 	switch x := r.Intn(20); {
 	case x < 3:
 		cfg.NumDNS = -1
@@ -125,6 +127,9 @@ func hashLog(lines []string) uint64 {
 // runSeed executes one seeded run.
 var walFile *os.File
 
+// stopProp: the property whose violations end a run (set from -prop).
+var stopProp string
+
 func walWrite(v interface{}) {
 	if walFile == nil {
 		return
@@ -149,18 +154,19 @@ func runSeed(seed int64, ps *PropSpec, keepLog bool) (*RunResult, *world.World, 
 		return nil, nil, err
 	}
 	w.KeepLog = keepLog
+	w.StopProp = stopProp
 	g := &gen.Gen{R: r, W: w, P: gen.Swarm(r, ps.Profile), Boot: 8 + r.Intn(14)}
 	steps := ps.Steps[0] + r.Intn(ps.Steps[1]-ps.Steps[0]+1)
 	for _, nd := range w.Nodes {
 		w.CheckRegistry(nd)
 	}
-	for i := 0; i < steps && len(w.Found) == 0; i++ {
+	for i := 0; i < steps && !w.Stop(); i++ {
 		ev := g.Next()
 		w.Trace = append(w.Trace, ev)
 		walWrite(ev)
 		w.Apply(ev)
 	}
-	if len(w.Found) == 0 && walFile == nil {
+	if !w.Stop() && walFile == nil {
 		w.Trace = append(w.Trace, w.Drain(4*len(w.Pool)+50)...)
 	}
 	if len(w.Found) == 0 && len(w.Pool) > 0 {
@@ -190,8 +196,9 @@ func replayTrace(cfg world.Config, evs []world.Event, keepLog bool) (*world.Worl
 	for _, nd := range w.Nodes {
 		w.CheckRegistry(nd)
 	}
+	w.StopProp = stopProp
 	for _, ev := range evs {
-		if len(w.Found) > 0 {
+		if w.Stop() {
 			break
 		}
 		w.Apply(ev)
@@ -361,6 +368,9 @@ func worker(ps *PropSpec, from, to int64, outPath string, keepHashes bool, maxVi
 				}
 			} else {
 				out.Foreign[res.Found[0].Clause+" ["+strings.Join(res.Found[0].Props, ",")+"]"]++
+				if len(out.ForeignSamples) < 2 {
+					out.ForeignSamples = append(out.ForeignSamples, fmt.Sprintf("seed %d: %s: %s", seed, res.Found[0].Clause, trunc(res.Found[0].Detail, 400)))
+				}
 			}
 		}
 	}
@@ -468,6 +478,7 @@ func main() {
 	if *replay != "" {
 		os.Exit(doReplay(*replay))
 	}
+	stopProp = *prop
 	all := props()
 	ps, ok := all[*prop]
 	if !ok {
@@ -517,6 +528,7 @@ func doReplay(path string) int {
 		fmt.Fprintln(os.Stderr, "bad replay file:", err)
 		return 2
 	}
+	stopProp = rf.Property
 	if rf.Property == "C19" {
 		fmt.Fprintln(os.Stderr, "C19 replay files are replayed by the concurrency engine (check C19 --replay)")
 		return 2
@@ -705,6 +717,9 @@ func parent(ps *PropSpec, tier string, seed int64, runs, workers int, verifDir s
 		for k, v := range wo.Foreign {
 			agg.Foreign[k] += v
 		}
+		if len(agg.ForeignSamples) < 4 {
+			agg.ForeignSamples = append(agg.ForeignSamples, wo.ForeignSamples...)
+		}
 		for k, v := range wo.RunHashes {
 			agg.RunHashes[k] = v
 		}
@@ -843,6 +858,9 @@ func parent(ps *PropSpec, tier string, seed int64, runs, workers int, verifDir s
 	}
 	writeEvidence(ps, tier, seed, agg, len(states), len(sigs), wall, nviol, verifDir, holes)
 	fmt.Printf("runs=%d events=%d calls=%d states=%d distinct-calls=%d wall=%.1fs runs/hour=%.0f foreign=%v\n", agg.Runs, agg.Events, agg.Calls, len(states), len(sigs), wall, float64(agg.Runs)/wall*3600, agg.Foreign)
+	for _, fs := range agg.ForeignSamples {
+		fmt.Println("foreign:", fs)
+	}
 	if len(holes) > 0 {
 		fmt.Fprintf(os.Stderr, "COVERAGE HOLE (exit 2, not a violation): never reached %v\n", holes)
 		return 2
